@@ -215,7 +215,7 @@ def run(ctx, out):
             base.append(r)
     jobs = []
     bad = [r for r in base if r["fails"]]
-    stride = 1 if ctx.thorough else 3
+    stride = 1          # every allocation index in both tiers (a defect on ONE unwinding path is hit by one index only)
     for i, (sc, b) in enumerate(zip(scs, base)):
         off = (ctx.seed + i) % stride
         for n in range(1 + off, b["allocs_before_probe"] + 2, stride):
@@ -256,7 +256,7 @@ def run(ctx, out):
     out.coverage.update({
         "evaluations": len(results) + len(base),
         "distinct_nontrivial": fired,
-        "rule": "single-fault enumeration: scenario x index of the failing allocation (every index in the thorough tier, every 3rd with a seed-dependent offset in quick); "
+        "rule": "single-fault enumeration: scenario x index of the failing allocation (every index, both tiers); "
                 "a run is non-trivial when the injected failure actually fired; plus seeded multi-fault runs",
         "samples": [{"scenario": s.name, "allocations_in_fault_free_run": b["allocs_before_probe"], "first_steps": [repr(x)[:120] for x in s.steps[:4]]} for s, b in list(zip(scs, base))[:5]],
         "faults_fired": fired,
@@ -266,6 +266,9 @@ def run(ctx, out):
         "traces_validated_against_impl": len(results),
         "tie_wall_s": round(time.time() - t0, 1),
     })
+    # unwinding of run_io under every failure position (real linux_io.c against Cjet.Startup and its goto ladders)
+    from vlib import startup_tie
+    startup_tie.run_startup_tie(ctx, out)
     out.assumptions += ["one C allocation does not map one-to-one to a model failure point (cJSON nodes): the enumeration judges the real code by crash/leak/hygiene/"
                         "liveness/at-most-one-response, the ladder theorems carry the unwinding logic",
                         "reduced-heap-cap runs are covered by the alloc component tie (C07)"]
